@@ -89,11 +89,15 @@ VALUES_X = [u"[caf\xe9,\u65e5\u672c]", "[1,10,2]", "1e400", "[nan,inf]",
             "0999-01-01", "[0999-01-01,2020-01-01]", "[True,false,TRUE]", "(1;2;3;4)",
             "[(1;2;3;4;5;6;7;8;9;10)]", "(1;2;3;4;5;6;7;8;9;10;11)", "99999999999999999999999", u"\uff11",
             u"[\u0663]", "10:00:00", "[0999-01-01 10:00:00]", "'a'", "[a'b,c]", "a\tb", "[\t]", "[1,,2]",
-            "[ 1 , 2 ]", "-0", "[1e3,0x10,1_0]", "2020-01-02 10:00:00", "[\"\"]", "[\"a\"\"b\"]"]
+            "[ 1 , 2 ]", "-0", "[1e3,0x10,1_0]", "2020-01-02 10:00:00", "[\"\"]", "[\"a\"\"b\"]",
+            "9" * 4301, "[1," + "9" * 5000 + "]", "-" + "9" * 4301, "(1;" + "9" * 5000 + ")"]
 CARDS_X = ["(10, 2)", "(9,10)", "(2,10)", "(010,2)", "(10,10)", "(1e3,2)", "(+1,2)", "(1_0,2)", u"(\u0663,4)",
            u"(\uff11,\uff12)", "(1.0,2)", "(1,2.5)", "(99999999999999999999,None)", "(None,None)", "(none,1)",
            "(1 ,2)", "(1,\n2)", "((1,2))", "(1,2),", u"(\uff11, None)", "(100,99)", "(0,10)", "(1,None,)",
-           "(True,2)", "(1;2)", "1,2", "(1,2", "(,)", "(None,)", "(-0,1)", "(00,01)"]
+           "(True,2)", "(1;2)", "1,2", "(1,2", "(,)", "(None,)", "(-0,1)", "(00,01)",
+           # decimal text around the interpreter's limit for int(str) (4300 digits since Python 3.11)
+           "(" + "9" * 4300 + ",None)", "(" + "9" * 4301 + ",None)", "(None," + "1" * 5000 + ")",
+           "(" + "0" * 5000 + ",1)", "(1," + "9" * 5000 + ")", "(" + "9" * 5000 + "," + "9" * 5001 + ")"]
 MISC_X = [u"caf\xe9", u"\u65e5\u672c", u"a\u2028b", u"a\x85b", u"\U0001f600", "x" * 2000, "file:///etc/hostname",
           "file:///nonexistent.xml#a", "#", "a#b#c", "\t", "0", "None", u"\ud800", u"\ufffe", "\x0b"]
 
@@ -294,6 +298,10 @@ DNAMES_X = [u"caf\xe9", {"bytes": "73"}, {"date": "2020-01-02"}, {"f": "nan"}, {
 DCARDS_X = [{"tuple": [1, 2]}, [10, 2], [2, 10], [10, 10], [10 ** 30, None], [{"f": "1.0"}, {"f": "2.0"}], ["1", "2"],
             [None, None], {"tuple": [None, 3]}, "(1, 2)", [1, {"f": "2.5"}], {"set": [1, 2]}, [{"f": "nan"}, 1],
             [{"f": "inf"}, None], {"tuple": [2, 1]}, [0, 10], [100, 99], {"tuple": [1, 2, 3]}, [False, True]]
+# Not generated: an int with more digits than int <-> str converts (4300 since Python 3.11) inside a dictionary.  No
+# JSON or YAML text decodes to one (both decoders refuse the digits), so a dictionary holding one is not "input shaped
+# like an odML dictionary" that the JSON/YAML reader can meet; str() of it raises ValueError wherever the library
+# formats a message.  XML text with such digits IS in the quantifier ("arbitrary strings"): CARDS_X / VALUES_X.
 DVALUES_X = [{"tuple": [1, 2]}, [{"tuple": [1, 2]}], {"date": "2020-01-02"}, [{"date": "0999-01-01"}],
              [{"datetime": "2020-01-02T10:00:00"}], [{"time": "10:00:00"}], [{"bytes": "6162"}], {"set": [1, 2]},
              [{"f": "nan"}, {"f": "inf"}], [10 ** 400], [u"caf\xe9", u"\u65e5\u672c"], ["(1;2;3;4;5;6;7;8;9;10)"],
@@ -1372,6 +1380,8 @@ def to_py_x(j, memo=None):
             return datetime.datetime.strptime(j["time"], "%H:%M:%S").time()
         if "bytes" in j:
             return bytes(bytearray.fromhex(j["bytes"]))
+        if "pow10" in j:        # an int with more digits than int <-> str converts (sign of the tag = sign of the int)
+            return 10 ** j["pow10"] if j["pow10"] >= 0 else -(10 ** -j["pow10"])
         if "od" in j:
             return collections.OrderedDict((k, to_py_x(v, memo)) for k, v in j["od"])
         if "ok" in j:
